@@ -169,7 +169,16 @@ impl Report {
             s.insert(member.to_string());
         }
     }
-    pub fn violation(&self, v: Violation) {
+    pub fn violation(&self, mut v: Violation) {
+        // which case of which parallel loop produced it (generic replay: `--replay` re-runs that case)
+        let (phase, index) = crate::pool::current_case();
+        if phase != u64::MAX {
+            if let Value::Object(m) = &mut v.replay {
+                m.insert("_case".into(), json!({"phase": phase, "index": index}));
+            } else {
+                v.replay = json!({"input": v.replay, "_case": {"phase": phase, "index": index}});
+            }
+        }
         let mut g = self.violations.lock().unwrap();
         match g.get_mut(&v.signature) {
             Some(e) => e.1 += 1,
@@ -293,7 +302,7 @@ impl Report {
         });
         // sanitizer stages run a sample of the same check: their result goes to out/sanit, the
         // minimum-observation thresholds of the full run do not apply to them
-        let sanitizer = std::env::var("VERIF_SANITIZER").ok();
+        let sanitizer = std::env::var("VERIF_SANITIZER").ok().or_else(|| crate::pool::replay_only().map(|_| "replay".to_string()));
         let edir = match &sanitizer {
             Some(_) => PathBuf::from(VERIF_DIR).join("out/sanit"),
             None => PathBuf::from(VERIF_DIR).join("evidence"),
@@ -321,6 +330,13 @@ impl Report {
             println!("VIOLATION property={} replay={}", self.prop, p.display());
             println!("  signature: {}", v.signature);
             println!("  what: {}", v.what);
+            if crate::pool::replay_only().is_some() {
+                if let Some(log) = v.replay.get("log").and_then(|l| l.as_array()) {
+                    for l in log {
+                        println!("    {}", l.as_str().unwrap_or(""));
+                    }
+                }
+            }
         }
         println!(
             "{} {}: evaluations={} distinct={} violations={} known_findings={} inconclusive={} wall={:.1}s",
